@@ -245,8 +245,6 @@ def fcn_check(case):
         ag = FCNAgent(agent_id=7 + g, prng=random.Random(case["agent_seed"] + 1000 * g), simulator=sim, name=f"fcn{g}")
         _call(ag.setup, settings=shared, accessible_markets_ids=acc)
         group.append(ag)
-    if shared != case["params"]:
-        raise Violation("C20.setup_mutates_group_settings", f"FCNAgent.setup changed the settings dict shared by its group: {shared} (was {case['params']})")
     classes = set()
     for ag in group:
         if "meanReversionTime" not in case["params"] and ag.mean_reversion_time != ag.time_window_size:
